@@ -231,6 +231,39 @@ func runPair(c *vf.Check, gn string, k int, pi []int, otherG bool) {
 		w = newWorldG(gn)
 		gl = " generator g*B"
 	}
+	// the convenience entry point Shuffle(): its prover may be run more than once (one transcript per verifier, a
+	// retry), every transcript verifies, and the output is a shuffle of the input
+	if pi[0] == 0 && (len(pi) < 2 || pi[1] == 1) {
+		id := fmt.Sprintf("shuffle.Shuffle %s k=%d%s: prover run three times", gn, k, gl)
+		c.Case(id, pk, func(x *vf.Ctx) {
+			in := w.input(k, 0)
+			X, Y := w.points(in.a), w.points(in.b)
+			Xb, Yb, prover := shuffle.Shuffle(w.s, w.G, w.H, X, Y, alpha.Stream("c15-Shuffle-"+id))
+			for run := 0; run < 3; run++ {
+				prf, err := proof.HashProve(w.s, fmt.Sprintf("c15-run%d", run), prover)
+				c.Eval(1)
+				if err != nil {
+					x.Failf(pk+"/prove-failed", "%s: run %d: %v", id, run, err)
+					return
+				}
+				var verr error
+				func() {
+					defer func() {
+						if r := recover(); r != nil {
+							verr = fmt.Errorf("panic: %v", r)
+						}
+					}()
+					verr = proof.HashVerify(w.s, fmt.Sprintf("c15-run%d", run), shuffle.Verifier(w.s, w.G, w.H, X, Y, Xb, Yb), prf)
+				}()
+				if verr != nil {
+					x.Failf(pk+"/honest-rejected", "%s: the transcript of run %d of the same prover is rejected: %v", id, run, verr)
+					return
+				}
+			}
+		})
+		c.Count("transitions", 3)
+		c.Nontrivial(id)
+	}
 	for variant := 0; variant < 3; variant++ {
 		variant := variant
 		if otherG && variant == 2 {
